@@ -110,3 +110,294 @@ package document
 //@   invariant plainT(old(xmlPos())) ==> forall k int :: {xmlDepth(k)} old(xmlPos()) <= k && k < xmlPos() ==> xmlDepth(k) >= old(xmlDepth(xmlPos()))
 //@   invariant plainT(old(xmlPos())) ==> runText(run, lastKidEnd(old(xmlPos()), xmlPos(), "t"))
 //@   decreases xmlRem()
+
+
+// parseParagraph (C03 "same sequence of paragraphs, each with the same text", C04 "no body text carried by runs is lost"):
+// called right behind a <w:p> start tag it returns right behind the matching end tag; the paragraph has exactly one run per
+// DIRECT w:r child, in document order (the run read from the k-th w:r child sits at index k, whatever stands between the
+// w:r children), and each run carries the text of its last w:t child (runText, as parseRun states it). Every other child
+// except w:pPr is skipped WHOLE: runs nested in w:hyperlink, w:smartTag, w:ins, w:sdt, w:fldSimple ... are NOT direct
+// children and their text is not kept - the library has no object for these containers (documented limitation; the
+// contract claims nothing about them beyond "the walker does not lose its place").
+// noParaSect(p0): behind p0 no w:pPr element has a w:sectPr child. (A paragraph-level section break makes the reader put a section
+// object into the BODY list while it is still inside the paragraph - setSectionProperties; the body-level contracts below
+// are stated for token sequences without such breaks, which the library's own writer never produces: ParagraphProperties has no sectPr.)
+//@ spec noParaSect(p0 int) bool = forall s int :: {xmlTok(s)} p0 <= s && tokIsEnd(s) && tokLocal(s) == "pPr" ==> kidCnt(xmlOpen(s) + 1, s, "sectPr") == 0
+//@ spec runAt(p *Paragraph, i int, e int) bool = 0 <= i && i < len(p.Runs) && ite(lastKidEnd(xmlOpen(e) + 1, e, "t") < 0, p.Runs[i].Text.Content == "" && p.Runs[i].Text.Space == "", p.Runs[i].Text.Content == charsCat(xmlOpen(lastKidEnd(xmlOpen(e) + 1, e, "t")) + 1, lastKidEnd(xmlOpen(e) + 1, e, "t")) && p.Runs[i].Text.Space == av(xmlOpen(lastKidEnd(xmlOpen(e) + 1, e, "t")), "space"))
+//@ func (*Document).parseParagraph
+//@ props C06, C03, C04, C09
+//@ appendfacts
+//@ requires d != nil && decoder != nil
+//@ requires xmlPos() >= 1 && tokIsStart(xmlPos() - 1) && tokLocal(xmlPos() - 1) == "p"
+//@ ensures xmlRem() <= old(xmlRem())
+//@ ensures old(d.Body) != nil ==> d.Body != nil
+//@ ensures old(d.Body) != nil && old(elemsOK(d.Body.Elements)) ==> elemsOK(d.Body.Elements)
+//@ ensures err == nil ==> result0 != nil
+//@ ensures err == nil ==> fresh(result0) && !isElem(result0) && arr(result0.Runs) != 0 && arr(result0.Runs) >= old(allocBound())   // C09 (agent-rdrb): the paragraph and its run array are allocated by this call
+//@ ensures forall p *Paragraph :: {p.Runs} allocated(p) ==> p.Runs == old(p.Runs)   // C09 (agent-rdrb): no paragraph that existed before gets another run array
+//@ ensures xmlPos() >= old(xmlPos())
+//@ ensures err == nil && plainT(old(xmlPos())) ==> xmlPos() > old(xmlPos()) && tokIsEnd(xmlPos() - 1) && xmlDepth(xmlPos()) == old(xmlDepth(xmlPos())) - 1
+//@ ensures err == nil && plainT(old(xmlPos())) ==> forall k int :: {xmlDepth(k)} old(xmlPos()) <= k && k < xmlPos() ==> xmlDepth(k) >= old(xmlDepth(xmlPos()))
+//@ ensures err == nil && plainT(old(xmlPos())) ==> xmlOpen(xmlPos() - 1) == old(xmlPos()) - 1
+//@ ensures err == nil && plainT(old(xmlPos())) && noParaSect(old(xmlPos())) ==> d.Body == old(d.Body) && len(d.Body.Elements) == old(len(d.Body.Elements)) && (forall j int :: 0 <= j && j < len(d.Body.Elements) ==> d.Body.Elements[j] == old(d.Body.Elements[j]))
+//@ ensures err == nil && plainT(old(xmlPos())) ==> len(result0.Runs) == kidCnt(old(xmlPos()), xmlPos() - 1, "r")
+//@ ensures err == nil && plainT(old(xmlPos())) ==> forall e int :: {xmlOpen(e)} e < xmlPos() - 1 && kidEnd(old(xmlPos()), e, old(xmlDepth(xmlPos())), "r") ==> runAt(result0, kidCnt(old(xmlPos()), xmlOpen(e), "r"), e)
+//@ loop 1
+//@   invariant xmlRem() <= old(xmlRem())
+//@   invariant old(d.Body) != nil ==> d.Body != nil
+//@   invariant old(d.Body) != nil && old(elemsOK(d.Body.Elements)) ==> elemsOK(d.Body.Elements)
+//@   invariant paragraph != nil && fresh(paragraph)
+//@   invariant fresh(paragraph) && !isElem(paragraph) && arr(paragraph.Runs) != 0 && arr(paragraph.Runs) >= old(allocBound())   // C09 (agent-rdrb)
+//@   invariant forall p *Paragraph :: {p.Runs} allocated(p) ==> p.Runs == old(p.Runs)   // C09 (agent-rdrb)
+//@   invariant xmlPos() >= old(xmlPos())
+//@   invariant plainT(old(xmlPos())) ==> xmlDepth(xmlPos()) == old(xmlDepth(xmlPos()))
+//@   invariant plainT(old(xmlPos())) ==> forall k int :: {xmlDepth(k)} old(xmlPos()) <= k && k < xmlPos() ==> xmlDepth(k) >= old(xmlDepth(xmlPos()))
+//@   invariant plainT(old(xmlPos())) && noParaSect(old(xmlPos())) ==> d.Body == old(d.Body) && len(d.Body.Elements) == old(len(d.Body.Elements)) && (forall j int :: 0 <= j && j < len(d.Body.Elements) ==> d.Body.Elements[j] == old(d.Body.Elements[j]))
+//@   invariant plainT(old(xmlPos())) ==> len(paragraph.Runs) == kidCnt(old(xmlPos()), xmlPos(), "r")
+//@   invariant plainT(old(xmlPos())) ==> forall e int :: {xmlOpen(e)} e < xmlPos() && kidEnd(old(xmlPos()), e, old(xmlDepth(xmlPos())), "r") ==> runAt(paragraph, kidCnt(old(xmlPos()), xmlOpen(e), "r"), e)
+//@   decreases xmlRem()
+
+
+// The body level (C03 "same sequence of paragraphs, tables and breaks"; C04): parseBodySubElement turns the child whose start tag
+// was just read into ONE body element of the matching kind (w:p -> *Paragraph, w:tbl -> *Table, w:sectPr -> *SectionProperties)
+// and skips every other child whole, yielding nil; parseBodyElement appends one element per recognised DIRECT child of w:body, in
+// document order: the element built from the child that ends at e sits at index old(len) + bodyCnt(children before it).
+//@ spec bodyKid(k int) bool = tokLocal(k) == "p" || tokLocal(k) == "tbl" || tokLocal(k) == "sectPr"
+//@ spec bodyCnt(p0 int, p int) int = ite(p <= p0 || p <= 0, 0, ite(closesKid(p0, p), bodyCnt(p0, xmlOpen(p - 1)) + ite(bodyKid(xmlOpen(p - 1)), 1, 0), bodyCnt(p0, p - 1)))
+//@ spec elemKind(x any, k int) bool = ref(x) != nil && ite(tokLocal(k) == "p", typeIs(x, "*Paragraph"), ite(tokLocal(k) == "tbl", typeIs(x, "*Table"), typeIs(x, "*SectionProperties")))
+//@ spec bodyKidEnd(p0 int, e int, dp int) bool = p0 <= e && tokIsEnd(e) && xmlDepth(e + 1) == dp && bodyKid(xmlOpen(e))
+//@ func (*Document).parseBodySubElement
+//@ props C06, C03, C04
+//@ requires d != nil && decoder != nil
+//@ requires xmlPos() >= 1 && tokIsStart(xmlPos() - 1) && tokLocal(xmlPos() - 1) == startElement.Name.Local   // startElement is the start tag just consumed
+//@ ensures err == nil && result0 != nil ==> ref(result0) != nil
+//@ ensures xmlRem() <= old(xmlRem())
+//@ ensures old(d.Body) != nil ==> d.Body != nil
+//@ ensures old(d.Body) != nil && old(elemsOK(d.Body.Elements)) ==> elemsOK(d.Body.Elements)
+//@ ensures xmlPos() >= old(xmlPos())
+//@ ensures err == nil && plainT(old(xmlPos())) ==> xmlPos() > old(xmlPos()) && tokIsEnd(xmlPos() - 1) && xmlDepth(xmlPos()) == old(xmlDepth(xmlPos())) - 1
+//@ ensures err == nil && plainT(old(xmlPos())) ==> forall k int :: {xmlDepth(k)} old(xmlPos()) <= k && k < xmlPos() ==> xmlDepth(k) >= old(xmlDepth(xmlPos()))
+//@ ensures err == nil && plainT(old(xmlPos())) ==> xmlOpen(xmlPos() - 1) == old(xmlPos()) - 1
+//@ ensures err == nil && plainT(old(xmlPos())) && noParaSect(old(xmlPos())) ==> d.Body == old(d.Body) && len(d.Body.Elements) == old(len(d.Body.Elements)) && (forall j int :: 0 <= j && j < len(d.Body.Elements) ==> d.Body.Elements[j] == old(d.Body.Elements[j]))
+//@ ensures err == nil ==> (result0 != nil) == bodyKid(old(xmlPos()) - 1)
+//@ ensures err == nil && result0 != nil ==> elemKind(result0, old(xmlPos()) - 1)
+
+//@ func (*Document).parseBodyElement
+//@ props C06, C03, C04
+//@ appendfacts
+//@ requires d != nil && decoder != nil && d.Body != nil
+//@ requires xmlPos() >= 1 && tokIsStart(xmlPos() - 1) && tokLocal(xmlPos() - 1) == "body"
+//@ ensures xmlRem() <= old(xmlRem())
+//@ ensures old(d.Body) != nil ==> d.Body != nil
+//@ ensures old(d.Body) != nil && old(elemsOK(d.Body.Elements)) ==> elemsOK(d.Body.Elements)
+//@ ensures xmlPos() >= old(xmlPos())
+// a nil result means: the whole w:body element was consumed (depth one less than at entry), or the loop was left through its
+// io.EOF exit in the middle of the element (depth not below the entry depth; encoding/xml reports a syntax error there rather
+// than io.EOF, the decoder model does not know that): the clauses below cover both, the position of the last child counted is
+// xmlPos() - 1 in the first case and xmlPos() in the second
+//@ ensures result == nil && plainT(old(xmlPos())) ==> xmlDepth(xmlPos()) >= old(xmlDepth(xmlPos())) - 1
+//@ ensures result == nil && plainT(old(xmlPos())) ==> xmlDepth(xmlPos()) == old(xmlDepth(xmlPos())) - 1 || xmlDepth(xmlPos()) == old(xmlDepth(xmlPos()))
+//@ ensures result == nil && plainT(old(xmlPos())) && xmlDepth(xmlPos()) < old(xmlDepth(xmlPos())) ==> xmlPos() > old(xmlPos()) && tokIsEnd(xmlPos() - 1) && xmlOpen(xmlPos() - 1) == old(xmlPos()) - 1
+//@ ensures result == nil && plainT(old(xmlPos())) ==> forall k int :: {xmlDepth(k)} old(xmlPos()) <= k && k < xmlPos() ==> xmlDepth(k) >= old(xmlDepth(xmlPos()))
+// the end tag of the w:body element, if it has been delivered at all, is the last token consumed
+//@ ensures result == nil && plainT(old(xmlPos())) ==> forall e int :: {xmlOpen(e)} bodyEnd(old(xmlPos()) - 1, e) ==> ite(xmlDepth(xmlPos()) < old(xmlDepth(xmlPos())), e == xmlPos() - 1, e >= xmlPos())
+//@ ensures result == nil && plainT(old(xmlPos())) ==> xmlDepth(xmlPos()) < old(xmlDepth(xmlPos())) || xmlRem() == 0   // the io.EOF exit: the decoder delivers nothing any more
+//@ ensures result == nil && plainT(old(xmlPos())) && noParaSect(old(xmlPos())) ==> d.Body == old(d.Body)
+//@ ensures result == nil && plainT(old(xmlPos())) && noParaSect(old(xmlPos())) ==> forall j int :: 0 <= j && j < old(len(d.Body.Elements)) ==> d.Body.Elements[j] == old(d.Body.Elements[j])
+//@ ensures result == nil && plainT(old(xmlPos())) && noParaSect(old(xmlPos())) ==> len(d.Body.Elements) == old(len(d.Body.Elements)) + bodyCnt(old(xmlPos()), ite(xmlDepth(xmlPos()) < old(xmlDepth(xmlPos())), xmlPos() - 1, xmlPos()))
+//@ ensures result == nil && plainT(old(xmlPos())) && noParaSect(old(xmlPos())) ==> forall e int :: {xmlOpen(e)} e < ite(xmlDepth(xmlPos()) < old(xmlDepth(xmlPos())), xmlPos() - 1, xmlPos()) && bodyKidEnd(old(xmlPos()), e, old(xmlDepth(xmlPos()))) ==> 0 <= bodyCnt(old(xmlPos()), xmlOpen(e)) && old(len(d.Body.Elements)) + bodyCnt(old(xmlPos()), xmlOpen(e)) < len(d.Body.Elements) && elemKind(d.Body.Elements[old(len(d.Body.Elements)) + bodyCnt(old(xmlPos()), xmlOpen(e))], xmlOpen(e))
+//@ loop 1
+//@   invariant xmlRem() <= old(xmlRem())
+//@   invariant old(d.Body) != nil ==> d.Body != nil
+//@   invariant old(d.Body) != nil && old(elemsOK(d.Body.Elements)) ==> elemsOK(d.Body.Elements)
+//@   invariant xmlPos() >= old(xmlPos())
+//@   invariant plainT(old(xmlPos())) ==> xmlDepth(xmlPos()) == old(xmlDepth(xmlPos()))
+//@   invariant plainT(old(xmlPos())) ==> forall k int :: {xmlDepth(k)} old(xmlPos()) <= k && k < xmlPos() ==> xmlDepth(k) >= old(xmlDepth(xmlPos()))
+//@   invariant plainT(old(xmlPos())) ==> forall e int :: {xmlOpen(e)} bodyEnd(old(xmlPos()) - 1, e) ==> e >= xmlPos()
+//@   invariant plainT(old(xmlPos())) && noParaSect(old(xmlPos())) ==> d.Body == old(d.Body)
+//@   invariant plainT(old(xmlPos())) && noParaSect(old(xmlPos())) ==> bodyCnt(old(xmlPos()), xmlPos()) >= 0
+//@   invariant plainT(old(xmlPos())) && noParaSect(old(xmlPos())) ==> len(d.Body.Elements) == old(len(d.Body.Elements)) + bodyCnt(old(xmlPos()), xmlPos())
+//@   invariant plainT(old(xmlPos())) && noParaSect(old(xmlPos())) ==> forall j int :: 0 <= j && j < old(len(d.Body.Elements)) ==> d.Body.Elements[j] == old(d.Body.Elements[j])
+//@   invariant plainT(old(xmlPos())) && noParaSect(old(xmlPos())) ==> forall e int :: {xmlOpen(e)} e < xmlPos() && bodyKidEnd(old(xmlPos()), e, old(xmlDepth(xmlPos()))) ==> 0 <= bodyCnt(old(xmlPos()), xmlOpen(e)) && old(len(d.Body.Elements)) + bodyCnt(old(xmlPos()), xmlOpen(e)) < len(d.Body.Elements) && elemKind(d.Body.Elements[old(len(d.Body.Elements)) + bodyCnt(old(xmlPos()), xmlOpen(e))], xmlOpen(e))
+//@   decreases xmlRem()
+
+
+// The document level. parseDocumentElement (called right behind the <w:document> start tag) creates the body object and hands
+// every start tag named "body" to parseBodyElement; parseDocument looks for the first WordprocessingML document start tag.
+// Stated for token sequences with exactly ONE start tag named body behind the entry position (oneBody; a second one - which no
+// producer writes - would be appended to the same list, and a body nested in an unknown child of w:document is parsed as well,
+// because children of w:document other than body are not skipped but walked through): after a successful parse the element
+// list has exactly one entry per recognised direct child of that w:body element, of the matching kind, in document order.
+//@ spec oneBody(p0 int, b int) bool = p0 <= b && tokIsStart(b) && tokLocal(b) == "body" && (forall s int :: {xmlTok(s)} p0 <= s && s != b ==> !(tokIsStart(s) && tokLocal(s) == "body"))
+//@ spec bodyEnd(b int, e int) bool = e >= 0 && tokIsEnd(e) && xmlOpen(e) == b
+//@ spec isDocStart(s int) bool = tokIsStart(s) && tokLocal(s) == "document" && tokSpace(s) == "http://schemas.openxmlformats.org/wordprocessingml/2006/main"
+//@ spec firstDoc(p0 int, t int) bool = p0 <= t && isDocStart(t) && (forall s int :: {xmlTok(s)} p0 <= s && s < t ==> !isDocStart(s))
+//@ func (*Document).parseDocumentElement
+//@ props C06, C03, C04
+//@ requires d != nil && decoder != nil
+//@ ensures d.Body != nil && elemsOK(d.Body.Elements)
+//@ ensures xmlRem() <= old(xmlRem())
+//@ ensures old(d.Body) != nil ==> d.Body != nil
+//@ ensures old(d.Body) != nil && old(elemsOK(d.Body.Elements)) ==> elemsOK(d.Body.Elements)
+//@ ensures xmlPos() >= old(xmlPos())
+//@ ensures result == nil && plainT(old(xmlPos())) && noParaSect(old(xmlPos())) ==> forall b int, e int :: {xmlOpen(e), xmlTok(b)} oneBody(old(xmlPos()), b) && bodyEnd(b, e) && e < xmlPos() ==> len(d.Body.Elements) == bodyCnt(b + 1, e)
+//@ ensures result == nil && plainT(old(xmlPos())) && noParaSect(old(xmlPos())) ==> forall b int, e int, c int :: {xmlOpen(e), xmlTok(b), xmlOpen(c)} oneBody(old(xmlPos()), b) && bodyEnd(b, e) && e < xmlPos() && c < e && bodyKidEnd(b + 1, c, xmlDepth(b + 1)) ==> 0 <= bodyCnt(b + 1, xmlOpen(c)) && bodyCnt(b + 1, xmlOpen(c)) < len(d.Body.Elements) && elemKind(d.Body.Elements[bodyCnt(b + 1, xmlOpen(c))], xmlOpen(c))
+//@ loop 1
+//@   invariant d.Body != nil && elemsOK(d.Body.Elements)
+//@   invariant xmlRem() <= old(xmlRem())
+//@   invariant old(d.Body) != nil ==> d.Body != nil
+//@   invariant xmlPos() >= old(xmlPos())
+//@   invariant plainT(old(xmlPos())) && noParaSect(old(xmlPos())) ==> forall b int :: {xmlTok(b)} oneBody(old(xmlPos()), b) && xmlPos() <= b ==> len(d.Body.Elements) == 0
+//@   invariant plainT(old(xmlPos())) && noParaSect(old(xmlPos())) ==> forall b int, e int :: {xmlOpen(e), xmlTok(b)} oneBody(old(xmlPos()), b) && bodyEnd(b, e) && e < xmlPos() ==> len(d.Body.Elements) == bodyCnt(b + 1, e)
+//@   invariant plainT(old(xmlPos())) && noParaSect(old(xmlPos())) ==> forall b int, e int :: {xmlOpen(e), xmlTok(b)} oneBody(old(xmlPos()), b) && b < xmlPos() && bodyEnd(b, e) ==> e < xmlPos() || xmlRem() == 0
+//@   invariant plainT(old(xmlPos())) && noParaSect(old(xmlPos())) ==> forall b int, e int, c int :: {xmlOpen(e), xmlTok(b), xmlOpen(c)} oneBody(old(xmlPos()), b) && bodyEnd(b, e) && e < xmlPos() && c < e && bodyKidEnd(b + 1, c, xmlDepth(b + 1)) ==> 0 <= bodyCnt(b + 1, xmlOpen(c)) && bodyCnt(b + 1, xmlOpen(c)) < len(d.Body.Elements) && elemKind(d.Body.Elements[bodyCnt(b + 1, xmlOpen(c))], xmlOpen(c))
+//@   decreases xmlRem()
+
+//@ func (*Document).parseDocument
+//@ props C06, C03, C04
+//@ requires d != nil && d.Body == nil
+//@ ensures result == nil ==> d.Body != nil && elemsOK(d.Body.Elements)
+//@ ensures xmlPos() >= old(xmlPos())
+//@ ensures result == nil && plainT(old(xmlPos())) && noParaSect(old(xmlPos())) ==> forall t int, b int, e int :: {xmlTok(t), xmlOpen(e), xmlTok(b)} firstDoc(old(xmlPos()), t) && oneBody(t + 1, b) && bodyEnd(b, e) && e < xmlPos() ==> len(d.Body.Elements) == bodyCnt(b + 1, e)
+//@ ensures result == nil && plainT(old(xmlPos())) && noParaSect(old(xmlPos())) ==> forall t int, b int, e int, c int :: {xmlTok(t), xmlOpen(e), xmlTok(b), xmlOpen(c)} firstDoc(old(xmlPos()), t) && oneBody(t + 1, b) && bodyEnd(b, e) && e < xmlPos() && c < e && bodyKidEnd(b + 1, c, xmlDepth(b + 1)) ==> 0 <= bodyCnt(b + 1, xmlOpen(c)) && bodyCnt(b + 1, xmlOpen(c)) < len(d.Body.Elements) && elemKind(d.Body.Elements[bodyCnt(b + 1, xmlOpen(c))], xmlOpen(c))
+//@ loop 1
+//@   invariant d.Body == nil
+//@   invariant xmlPos() >= old(xmlPos())
+//@   invariant forall s int :: {xmlTok(s)} old(xmlPos()) <= s && s < xmlPos() ==> !isDocStart(s)
+//@   decreases xmlRem()
+
+// parseParagraphBorder (added with the repair of the dropped w:pBdr): called right behind the <w:pBdr> start tag, consumes exactly
+// that element; every child is skipped whole after its attributes have been read.
+//@ func (*Document).parseParagraphBorder
+//@ props C06, C03
+//@ wf ParagraphBorder.Top, ParagraphBorder.Left, ParagraphBorder.Bottom, ParagraphBorder.Right
+//@ requires d != nil && decoder != nil
+//@ requires xmlPos() >= 1 && tokIsStart(xmlPos() - 1) && tokLocal(xmlPos() - 1) == "pBdr"
+//@ ensures xmlRem() <= old(xmlRem())
+//@ ensures old(d.Body) != nil ==> d.Body != nil
+//@ ensures old(d.Body) != nil && old(elemsOK(d.Body.Elements)) ==> elemsOK(d.Body.Elements)
+//@ ensures d.Body == old(d.Body) && len(d.Body.Elements) == old(len(d.Body.Elements)) && (forall j int :: 0 <= j && j < len(d.Body.Elements) ==> d.Body.Elements[j] == old(d.Body.Elements[j]))
+//@ ensures err == nil ==> result0 != nil
+//@ ensures err == nil ==> fresh(result0) && !isElem(result0) && owned(result0, old(allocBound()))   // the border and its four lines are allocated by this call (needed by parseParagraphProperties: owned)
+//@ ensures xmlPos() >= old(xmlPos())
+//@ ensures err == nil ==> xmlPos() > old(xmlPos()) && tokIsEnd(xmlPos() - 1) && xmlDepth(xmlPos()) == old(xmlDepth(xmlPos())) - 1
+//@ ensures err == nil ==> forall k int :: {xmlDepth(k)} old(xmlPos()) <= k && k < xmlPos() ==> xmlDepth(k) >= old(xmlDepth(xmlPos()))
+//@ ensures err == nil ==> xmlOpen(xmlPos() - 1) == old(xmlPos()) - 1
+//@ ensures err == nil ==> bdrLine(result0.Top, lastKid(old(xmlPos()), xmlPos() - 1, "top"))
+//@ ensures err == nil ==> bdrLine(result0.Left, lastKid(old(xmlPos()), xmlPos() - 1, "left"))
+//@ ensures err == nil ==> bdrLine(result0.Bottom, lastKid(old(xmlPos()), xmlPos() - 1, "bottom"))
+//@ ensures err == nil ==> bdrLine(result0.Right, lastKid(old(xmlPos()), xmlPos() - 1, "right"))
+//@ loop 1
+//@   invariant xmlRem() <= old(xmlRem())
+//@   invariant old(d.Body) != nil ==> d.Body != nil
+//@   invariant old(d.Body) != nil && old(elemsOK(d.Body.Elements)) ==> elemsOK(d.Body.Elements)
+//@   invariant d.Body == old(d.Body) && len(d.Body.Elements) == old(len(d.Body.Elements)) && (forall j int :: 0 <= j && j < len(d.Body.Elements) ==> d.Body.Elements[j] == old(d.Body.Elements[j]))
+//@   invariant border != nil && fresh(border)
+//@   invariant fresh(border) && !isElem(border) && live(border) && owned(border, old(allocBound()))
+//@   invariant xmlPos() >= old(xmlPos()) && xmlDepth(xmlPos()) == old(xmlDepth(xmlPos()))
+//@   invariant forall k int :: {xmlDepth(k)} old(xmlPos()) <= k && k < xmlPos() ==> xmlDepth(k) >= old(xmlDepth(xmlPos()))
+//@   invariant bdrLine(border.Top, lastKid(old(xmlPos()), xmlPos(), "top"))
+//@   invariant bdrLine(border.Left, lastKid(old(xmlPos()), xmlPos(), "left"))
+//@   invariant bdrLine(border.Bottom, lastKid(old(xmlPos()), xmlPos(), "bottom"))
+//@   invariant bdrLine(border.Right, lastKid(old(xmlPos()), xmlPos(), "right"))
+//@   decreases xmlRem()
+//@ spec bdrLine(l *ParagraphBorderLine, k int) bool = ite(k < 0, l == nil, l != nil && l.Val == av(k, "val") && l.Color == av(k, "color") && l.Sz == av(k, "sz") && l.Space == av(k, "space"))
+
+
+// parseParagraphProperties / parseNumberingProperties (C03 "same paragraph formatting"): the style id, the alignment, the
+// keep/page-break/widow/outline/grid settings and the numbering reference of the paragraph are exactly the w:val attributes of the
+// LAST child of the respective name (w:pStyle and w:jc: the last one that has a non-empty w:val - an element without it says
+// nothing and is ignored); absent children leave the field nil (numbering: the paragraph refers to a numbering object iff it has a w:numPr child; what that
+// object holds - level and numbering id of the last w:ilvl / w:numId with a value - is stated on parseNumberingProperties). Spacing, indentation and border are read by the same function
+// (border: parseParagraphBorder above); w:tabs is not read (see the report).
+// lastValKid(p0, p, name): start of the last complete child named name in [p0, p) that carries a non-empty val attribute; -1: none
+//@ spec lastValKid(p0 int, p int, name string) int = ite(p <= p0 || p <= 0, -1, ite(closesKid(p0, p), ite(tokLocal(xmlOpen(p - 1)) == name && av(xmlOpen(p - 1), "val") != "", xmlOpen(p - 1), lastValKid(p0, xmlOpen(p - 1), name)), lastValKid(p0, p - 1, name)))
+//@ spec ppParagraphStyle(q *ParagraphProperties, k int) bool = ite(k < 0, q.ParagraphStyle == nil, q.ParagraphStyle != nil && q.ParagraphStyle.Val == av(k, "val"))
+//@ spec ppJustification(q *ParagraphProperties, k int) bool = ite(k < 0, q.Justification == nil, q.Justification != nil && q.Justification.Val == av(k, "val"))
+//@ spec ppKeepNext(q *ParagraphProperties, k int) bool = ite(k < 0, q.KeepNext == nil, q.KeepNext != nil && q.KeepNext.Val == av(k, "val"))
+//@ spec ppKeepLines(q *ParagraphProperties, k int) bool = ite(k < 0, q.KeepLines == nil, q.KeepLines != nil && q.KeepLines.Val == av(k, "val"))
+//@ spec ppPageBreakBefore(q *ParagraphProperties, k int) bool = ite(k < 0, q.PageBreakBefore == nil, q.PageBreakBefore != nil && q.PageBreakBefore.Val == av(k, "val"))
+//@ spec ppWidowControl(q *ParagraphProperties, k int) bool = ite(k < 0, q.WidowControl == nil, q.WidowControl != nil && q.WidowControl.Val == av(k, "val"))
+//@ spec ppOutlineLevel(q *ParagraphProperties, k int) bool = ite(k < 0, q.OutlineLevel == nil, q.OutlineLevel != nil && q.OutlineLevel.Val == av(k, "val"))
+//@ spec ppSnapToGrid(q *ParagraphProperties, k int) bool = ite(k < 0, q.SnapToGrid == nil, q.SnapToGrid != nil && q.SnapToGrid.Val == av(k, "val"))
+//@ spec numIlvl(n *NumberingProperties, k int) bool = ite(k < 0, n.ILevel == nil, n.ILevel != nil && n.ILevel.Val == av(k, "val"))
+//@ spec numID(n *NumberingProperties, k int) bool = ite(k < 0, n.NumID == nil, n.NumID != nil && n.NumID.Val == av(k, "val"))
+//@ spec ppNum(q *ParagraphProperties, e int) bool = (q.NumberingProperties != nil) == (e >= 0)
+//@ func (*Document).parseNumberingProperties
+//@ props C06, C03
+//@ requires d != nil && decoder != nil
+//@ modifies nothing
+//@ requires xmlPos() >= 1 && tokIsStart(xmlPos() - 1) && tokLocal(xmlPos() - 1) == "numPr"
+//@ ensures xmlRem() <= old(xmlRem())
+//@ ensures xmlPos() >= old(xmlPos())
+//@ ensures err == nil ==> xmlPos() > old(xmlPos()) && tokIsEnd(xmlPos() - 1) && xmlDepth(xmlPos()) == old(xmlDepth(xmlPos())) - 1
+//@ ensures err == nil ==> forall k int :: {xmlDepth(k)} old(xmlPos()) <= k && k < xmlPos() ==> xmlDepth(k) >= old(xmlDepth(xmlPos()))
+//@ ensures err == nil ==> xmlOpen(xmlPos() - 1) == old(xmlPos()) - 1
+//@ ensures old(d.Body) != nil ==> d.Body != nil
+//@ ensures old(d.Body) != nil && old(elemsOK(d.Body.Elements)) ==> elemsOK(d.Body.Elements)
+//@ ensures err == nil ==> result0 != nil
+// C03 (agent-rdrb): the numbering properties and both objects below them are allocated by this call; nothing that existed before is written
+//@ ensures err == nil ==> fresh(result0) && !isElem(result0) && owned(result0, old(allocBound()))
+//@ ensures err == nil ==> numIlvl(result0, lastValKid(old(xmlPos()), xmlPos() - 1, "ilvl"))
+//@ ensures err == nil ==> numID(result0, lastValKid(old(xmlPos()), xmlPos() - 1, "numId"))
+//@ loop 1
+//@   invariant xmlRem() <= old(xmlRem())
+//@   invariant xmlPos() >= old(xmlPos()) && xmlDepth(xmlPos()) == old(xmlDepth(xmlPos()))
+//@   invariant forall k int :: {xmlDepth(k)} old(xmlPos()) <= k && k < xmlPos() ==> xmlDepth(k) >= old(xmlDepth(xmlPos()))
+//@   invariant old(d.Body) != nil ==> d.Body != nil
+//@   invariant old(d.Body) != nil && old(elemsOK(d.Body.Elements)) ==> elemsOK(d.Body.Elements)
+//@   invariant numPr != nil && fresh(numPr)
+//@   invariant unchangedHeap()
+//@   invariant fresh(numPr) && !isElem(numPr) && live(numPr) && owned(numPr, old(allocBound()))
+//@   invariant numIlvl(numPr, lastValKid(old(xmlPos()), xmlPos(), "ilvl"))
+//@   invariant numID(numPr, lastValKid(old(xmlPos()), xmlPos(), "numId"))
+//@   decreases xmlRem()
+
+//@ func (*Document).parseParagraphProperties
+//@ props C06, C03
+//@ wf ParagraphProperties.NumberingProperties, NumberingProperties.ILevel, NumberingProperties.NumID
+//@ requires d != nil && decoder != nil && paragraph != nil
+//@ requires xmlPos() >= 1 && tokIsStart(xmlPos() - 1) && tokLocal(xmlPos() - 1) == "pPr"
+//@ ensures xmlRem() <= old(xmlRem())
+//@ ensures xmlPos() >= old(xmlPos())
+//@ ensures err == nil ==> xmlPos() > old(xmlPos()) && tokIsEnd(xmlPos() - 1) && xmlDepth(xmlPos()) == old(xmlDepth(xmlPos())) - 1
+//@ ensures err == nil ==> forall k int :: {xmlDepth(k)} old(xmlPos()) <= k && k < xmlPos() ==> xmlDepth(k) >= old(xmlDepth(xmlPos()))
+//@ ensures err == nil ==> xmlOpen(xmlPos() - 1) == old(xmlPos()) - 1
+//@ ensures err == nil && kidCnt(old(xmlPos()), xmlPos() - 1, "sectPr") == 0 ==> d.Body == old(d.Body) && len(d.Body.Elements) == old(len(d.Body.Elements)) && (forall j int :: 0 <= j && j < len(d.Body.Elements) ==> d.Body.Elements[j] == old(d.Body.Elements[j]))
+//@ ensures old(d.Body) != nil ==> d.Body != nil
+//@ ensures old(d.Body) != nil && old(elemsOK(d.Body.Elements)) ==> elemsOK(d.Body.Elements)
+//@ ensures paragraph.Properties != nil
+// C03 (agent-rdrb): the paragraph gets a properties object allocated by this call with everything below it allocated by this call
+// (owned: expanded from the Go type, every field); no other paragraph's properties field is written
+//@ ensures paragraph.Properties != nil && fresh(paragraph.Properties) && !isElem(paragraph.Properties) && owned(paragraph.Properties, old(allocBound()))
+//@ ensures forall p2 *Paragraph :: {p2.Properties} allocated(p2) && p2 != paragraph ==> p2.Properties == old(p2.Properties)
+//@ ensures err == nil ==> ppParagraphStyle(paragraph.Properties, lastValKid(old(xmlPos()), xmlPos() - 1, "pStyle"))
+//@ ensures err == nil ==> ppJustification(paragraph.Properties, lastValKid(old(xmlPos()), xmlPos() - 1, "jc"))
+//@ ensures err == nil ==> ppKeepNext(paragraph.Properties, lastKid(old(xmlPos()), xmlPos() - 1, "keepNext"))
+//@ ensures err == nil ==> ppKeepLines(paragraph.Properties, lastKid(old(xmlPos()), xmlPos() - 1, "keepLines"))
+//@ ensures err == nil ==> ppPageBreakBefore(paragraph.Properties, lastKid(old(xmlPos()), xmlPos() - 1, "pageBreakBefore"))
+//@ ensures err == nil ==> ppWidowControl(paragraph.Properties, lastKid(old(xmlPos()), xmlPos() - 1, "widowControl"))
+//@ ensures err == nil ==> ppOutlineLevel(paragraph.Properties, lastKid(old(xmlPos()), xmlPos() - 1, "outlineLvl"))
+//@ ensures err == nil ==> ppSnapToGrid(paragraph.Properties, lastKid(old(xmlPos()), xmlPos() - 1, "snapToGrid"))
+//@ ensures err == nil ==> ppNum(paragraph.Properties, lastKidEnd(old(xmlPos()), xmlPos() - 1, "numPr"))
+//@ loop 1
+//@   invariant xmlRem() <= old(xmlRem())
+//@   invariant xmlPos() >= old(xmlPos()) && xmlDepth(xmlPos()) == old(xmlDepth(xmlPos()))
+//@   invariant forall k int :: {xmlDepth(k)} old(xmlPos()) <= k && k < xmlPos() ==> xmlDepth(k) >= old(xmlDepth(xmlPos()))
+//@   invariant kidCnt(old(xmlPos()), xmlPos(), "sectPr") >= 0
+//@   invariant kidCnt(old(xmlPos()), xmlPos(), "sectPr") == 0 ==> d.Body == old(d.Body) && len(d.Body.Elements) == old(len(d.Body.Elements)) && (forall j int :: 0 <= j && j < len(d.Body.Elements) ==> d.Body.Elements[j] == old(d.Body.Elements[j]))
+//@   invariant old(d.Body) != nil ==> d.Body != nil
+//@   invariant old(d.Body) != nil && old(elemsOK(d.Body.Elements)) ==> elemsOK(d.Body.Elements)
+//@   invariant paragraph.Properties != nil && fresh(paragraph.Properties)
+//@   invariant paragraph.Properties != nil && fresh(paragraph.Properties) && !isElem(paragraph.Properties) && live(paragraph.Properties) && owned(paragraph.Properties, old(allocBound()))
+//@   invariant forall p2 *Paragraph :: {p2.Properties} allocated(p2) && p2 != paragraph ==> p2.Properties == old(p2.Properties)
+//@   invariant ppParagraphStyle(paragraph.Properties, lastValKid(old(xmlPos()), xmlPos(), "pStyle"))
+//@   invariant ppJustification(paragraph.Properties, lastValKid(old(xmlPos()), xmlPos(), "jc"))
+//@   invariant ppKeepNext(paragraph.Properties, lastKid(old(xmlPos()), xmlPos(), "keepNext"))
+//@   invariant ppKeepLines(paragraph.Properties, lastKid(old(xmlPos()), xmlPos(), "keepLines"))
+//@   invariant ppPageBreakBefore(paragraph.Properties, lastKid(old(xmlPos()), xmlPos(), "pageBreakBefore"))
+//@   invariant ppWidowControl(paragraph.Properties, lastKid(old(xmlPos()), xmlPos(), "widowControl"))
+//@   invariant ppOutlineLevel(paragraph.Properties, lastKid(old(xmlPos()), xmlPos(), "outlineLvl"))
+//@   invariant ppSnapToGrid(paragraph.Properties, lastKid(old(xmlPos()), xmlPos(), "snapToGrid"))
+//@   invariant ppNum(paragraph.Properties, lastKidEnd(old(xmlPos()), xmlPos(), "numPr"))
+//@   decreases xmlRem()
